@@ -408,6 +408,10 @@ def main(argv):
             # iterator chain) says "not provable for the abstraction"; it is believed only when the witness search
             # replays a failing input on the real code - otherwise the unit is undecided (exit 2), never an alarm
             abstracted = [k for k in ("L6", "L20", "L17b", "S8") if (r.get("rewrites") or {}).get(k)]
+            # `witness_gated` (units.toml): contracts whose proofs go through facts about transcendental atoms of the
+            # lifted expression (sqrt, powf) depend on the expression's shape - a refutation is believed only with a witness
+            if ob["name"].split("::")[-1] in u.get("witness_gated", []):
+                abstracted.append("shape-dependent proof (witness_gated)")
             if abstracted and u["engine"] in ("R", "S") and not a.no_witness and not wit.get("found"):
                 r2 = dict(r, reason=f"obligation {ob['name']} fails only over abstracted code ({', '.join(abstracted)}) and the witness search found no failing input on the real code")
                 undecided.append((u, r2))
